@@ -680,6 +680,14 @@ func c06FlagNames(kind string, f eng.Flags, w *c06Wide) []string {
 		add(w.Force, "Force")
 		add(w.WaitForJobs, "WaitForJobs")
 		add(w.Wait, "Wait")
+		add(w.Description != "", "Description")
+		add(w.UserLabels, "Labels")
+		add(w.SkipSchema, "SkipSchemaValidation")
+		add(w.EnableDNS, "EnableDNS")
+		add(w.ResetThenReuse, "ResetThenReuseValues")
+		add(w.HideNotes, "HideNotes")
+		add(w.Devel, "Devel")
+		add(w.DependencyUpdate, "DependencyUpdate")
 		switch kind {
 		case "install":
 			add(w.CreateNamespace, "CreateNamespace")
@@ -742,6 +750,15 @@ func c06RichInDomain(c c06Case) bool {
 		return false
 	}
 	dry := c06IsDrySpelling(c.Op.Kind, c.Op.Flags) || c.Template != nil
+	if c.Cmd != nil {
+		if !c06CmdInDomain(c.Cmd) {
+			return false
+		}
+		dry = c06CmdDryRequest(c.Cmd)
+		if !dry && strings.Contains(strings.Join(c.Cmd.Extra, " "), "--force") {
+			return false
+		}
+	}
 	if !dry && (c.Wide.Recreate || c.Wide.Force) {
 		return false
 	}
@@ -782,6 +799,8 @@ func c06CoqRich(c c06Case, o c06Obs) string {
 	f := c.Op.Flags
 	var xop string
 	switch {
+	case c.Cmd != nil:
+		xop = c06CoqCmd(c, cfg, ro)
 	case c.Template != nil:
 		var on []string
 		opt, inc := "", false
